@@ -118,11 +118,15 @@ def build_node(
     if not callable(process_method):
         raise RunMethodExpectedError('Missing method for node execution')
 
-    # The new class gets a new run method that carries only the annotations of target_dependencies. A generic
-    # input of the basic node that is not redefined would vanish silently and never be supplied.
+    # The new class gets a new run method that carries the dependencies of the basic node and target_dependencies.
+    # A generic input of the basic node that is not redefined would vanish silently and never be supplied.
     from ml_pipeline_engine.dag_builders.annotation.errors import NonRedefinedGenericTypeError  # noqa: PLC0415
     from ml_pipeline_engine.dag_builders.annotation.marks import GenericInputMark  # noqa: PLC0415
     from ml_pipeline_engine.dag_builders.annotation.marks import InputGenericMark  # noqa: PLC0415
+    from ml_pipeline_engine.dag_builders.annotation.marks import InputMark  # noqa: PLC0415
+    from ml_pipeline_engine.dag_builders.annotation.marks import InputOneOfMark  # noqa: PLC0415
+    from ml_pipeline_engine.dag_builders.annotation.marks import RecurrentSubGraphMark  # noqa: PLC0415
+    from ml_pipeline_engine.dag_builders.annotation.marks import SwitchCaseMark  # noqa: PLC0415
 
     for param_name, annotation in getattr(process_method, '__annotations__', {}).items():
         if (
@@ -163,6 +167,15 @@ def build_node(
     )
 
     method = created_node.process
+
+    # The dependencies that the basic node declares by itself (Input, SwitchCase, ... on its own run method) belong to
+    # the new node too. Only the generic inputs have to be redefined; a dependency may be overridden or given a value.
+    method.__annotations__.update({
+        param_name: annotation
+        for param_name, annotation in getattr(process_method, '__annotations__', {}).items()
+        if isinstance(annotation, (InputMark, SwitchCaseMark, InputOneOfMark, RecurrentSubGraphMark))
+        and param_name not in (dependencies_default or {})
+    })
     method.__annotations__.update(target_dependencies)
 
     globals()[class_name] = created_node
